@@ -45,6 +45,8 @@ def chooser(spec):
         base = name.split("_")[0]
         if base in ("DF394", "DF395"):
             k = spec.get('nsat' if base == "DF394" else 'nsig', 1)
+            if spec.get('maskmode') == 'high':    # the k highest IDs (satellites 64, 63, ...: outside most PRN tables; signals 32, 31: reserved)
+                return ('value', (1 << k) - 1)
             if spec.get('maskmode') == 'value':   # concrete seeded positions instead of symbolic witness positions
                 r2 = random.Random(spec.get('seed', 0) * 31 + (1 if base == "DF394" else 2) + k)
                 v = 0
@@ -139,6 +141,7 @@ def structures(ident, tier, seed=0):
                     dict(nsat=2, nsig=2, cellmask=seed + 5, maskmode='value', seed=seed),
                     dict(nsat=3, nsig=2, cellmask=seed + 6, maskmode='value', seed=seed + 1),
                     dict(nsat=13, nsig=5, cellmask=seed + 8, maskmode='value', seed=seed + 2)]      # 65 cells: wider than one machine word
+            out.append(dict(nsat=3, nsig=2, cellmask='ones', maskmode='high'))      # several satellites without a PRN (one shared 'N/A' label)
             if ident == '1071':
                 out.append(dict(nsat=26, nsig=4, cellmask='ones', maskmode='value', seed=seed + 3))  # 104 cells: three-digit cell indices
         else:
@@ -147,7 +150,8 @@ def structures(ident, tier, seed=0):
                     dict(nsat=1, nsig=1, cellmask='zero'), dict(nsat=2, nsig=1, cellmask='ones'),
                     dict(nsat=1, nsig=2, cellmask=seed + 3), dict(nsat=2, nsig=2, cellmask='ones'),
                     dict(nsat=2, nsig=2, cellmask=seed + 5), dict(nsat=3, nsig=2, cellmask=seed + 7, maskmode='value', seed=seed),
-                    dict(nsat=4, nsig=4, cellmask=seed + 9, maskmode='value', seed=seed + 1), dict(nsat=8, nsig=3, cellmask=seed + 11, maskmode='value', seed=seed + 2)]
+                    dict(nsat=4, nsig=4, cellmask=seed + 9, maskmode='value', seed=seed + 1), dict(nsat=8, nsig=3, cellmask=seed + 11, maskmode='value', seed=seed + 2),
+                    dict(nsat=3, nsig=2, cellmask='ones', maskmode='high'), dict(nsat=5, nsig=3, cellmask=seed + 12, maskmode='high')]
     elif k == 'harm':
         hs = [(0, 0, 0), (0, 1, 0), (0, 1, 1), (1, 1, 1), (0, 2, 1), (0, 2, 5), (0, 0, 3), (1, 1, 4), (0, 15, 15)] if tier == 'quick' else \
             [(l, n, m) for l in (0, 1, 2) for n in (0, 1, 2, 3) for m in range(0, n + 1)] + \
